@@ -12,3 +12,8 @@ Proof. intros [] []; reflexivity. Qed.
 
 Lemma bridge_sites : gen_sites = model_sites.
 Proof. reflexivity. Qed.
+
+(* wherever an engine is in scope, every load / save call names it (so a file is read and written with the
+   engine whose extension its name carries) *)
+Lemma bridge_engine_forwarded : gen_engine_forwarded_everywhere = true.
+Proof. reflexivity. Qed.
